@@ -10,13 +10,18 @@ from .lib.reachrule import ReachRule
 
 CONFIGS_QUICK = ["A"]
 CONFIGS_THOROUGH = ["A", "R", "NOAPI"]
-TECHNIQUE = "literal/field dispatch-table agreement across the sites that enumerate methods (built MIR), decision table of Node::search, reachability of unsafe operations from the search with dominance-checked guards"
-LEVEL_TEXT = ("Decides clauses C01-a/b/c: at each site that maps methods to per-method trees (Router::handle, gen_openapi_doc, From<base::Router>, register!, merge!, "
-              "apply_to!) the tree used for a Method variant is the field of the same name (HEAD served by the GET tree, its body dropped and its headers "
-              "kept), and all sites cover the same variants; Node::search returns the node's proc exactly on a hit and its catch otherwise, the catch being "
-              "built from default_not_found (404 Not Found); every unsafe operation reachable from the search is dominated by its guard, and the fixed-size "
-              "captured-parameter buffer cannot be overrun because finalize() refuses routes with more `:param` segments than it holds. Decides these "
-              "clauses, not segment-matching semantics over all route sets and paths.")
+TECHNIQUE = ('literal/field dispatch-table agreement across the sites that enumerate methods (built MIR), decision table of Node::search, must-pass-edge rule on '
+             'Pattern::take_through (segment boundary), per-iteration guard of the compression loop, reachability of unsafe operations from the search with '
+             'dominance-checked guards')
+LEVEL_TEXT = ('Decides clauses C01-a..f: at each site that maps methods to per-method trees (Router::handle, gen_openapi_doc, From<base::Router>, register!, merge!, '
+              'apply_to!) the tree used for a Method variant is the field of the same name (HEAD served by the GET tree, its body dropped and its headers kept), and '
+              "all sites cover the same variants; Node::search returns the node's proc exactly on a hit and its catch otherwise, the catch being built from "
+              'default_not_found (404 Not Found); every unsafe operation reachable from the search is dominated by its guard, and the fixed-size captured-parameter '
+              'buffer cannot be overrun because finalize() refuses routes with more `:param` segments than it holds; when a final node is built, its children are put'
+              ' into search order (static before param) after the last step that changes the child list (single-child compression), so the order search relies on '
+              "does not depend on registration order; while compressing single-child chains a node takes over its child's handler only under a test, made in the same"
+              ' iteration, that it has none of its own; a static pattern answers a match only on paths that establish a segment boundary (nothing left, or the next '
+              'byte is `/`), so `/users` is not matched by `/users2`. Decides these clauses, not segment-matching semantics over all route sets and paths.')
 
 METHODS = ["GET", "PUT", "POST", "PATCH", "DELETE", "OPTIONS"]
 
@@ -30,9 +35,14 @@ AUDIT = [
      "guards": [{"kind": "reason", "reason": "Path was initialised by Request::read before the router runs (C02 audit: initialisation protocol)"}], "reason": "initialised request path"},
     {"fn": r"request::path::Path>::(normalized_bytes|push_param)$", "sink": r".", "guards": [{"kind": "in_unsafe_fn"}], "reason": "unsafe fn"},
     {"fn": r"router::r#final::Pattern::take_through$", "sink": r"^unsafe-call:core::slice::<impl \[T\]>::get_unchecked$",
-     "guards": [{"kind": "cmp", "op": "Ge", "lhs_len": True, "rhs_len": True},
-                {"kind": "cmp", "op": "Ge", "const": 2, "lhs_len": True}],
-     "reason": "..size / size.. under bytes.len() >= size; indices 0, 1 and 1.. under bytes.len() >= 2"},
+     "guards": [{"kind": "all", "of": [{"kind": "operand", "which": "arg1", "from": {"range": {"end": {"len": True}}}}, {"kind": "cmp", "op": "Ge", "lhs_len": True, "rhs_len": True}]},
+                {"kind": "all", "of": [{"kind": "operand", "which": "arg1", "from": {"range": {"start": {"len": True}}}}, {"kind": "cmp", "op": "Ge", "lhs_len": True, "rhs_len": True}]},
+                {"kind": "all", "of": [{"kind": "operand", "which": "arg1", "len": True}, {"kind": "cmp", "op": "Ge", "lhs_len": True, "rhs_len": True},
+                                       {"kind": "cmp", "op": "Ne", "lhs_len": True, "rhs_len": True}]},
+                {"kind": "all", "of": [{"kind": "operand", "which": "arg1", "from": {"const": 0}}, {"kind": "cmp", "op": "Ge", "const": 2, "lhs_len": True}]},
+                {"kind": "all", "of": [{"kind": "operand", "which": "arg1", "from": {"const": 1}}, {"kind": "cmp", "op": "Ge", "const": 2, "lhs_len": True}]},
+                {"kind": "all", "of": [{"kind": "operand", "which": "arg1", "from": {"range": {"start": {"const": 1}}}}, {"kind": "cmp", "op": "Ge", "const": 2, "lhs_len": True}]}],
+     "reason": "..size / size.. under bytes.len() >= size; index size under bytes.len() >= size and != size; indices 0, 1 and 1.. under bytes.len() >= 2"},
     {"fn": r"router::r#final::Pattern::take_through$", "sink": r"^unsafe-call:.*Path>::push_param$",
      "guards": [{"kind": "reason", "reason": "push_param's contract is an initialised Path (see search_target); the buffer bound is Params::push's obligation"}], "reason": "initialised request path"},
     {"fn": r"router::util::split_next_section$", "sink": r"^unsafe-call:core::slice::<impl \[T\]>::get_unchecked$|^unsafe-call:core::slice::raw::from_raw_parts$|^unsafe-call:core::ptr::const_ptr::<impl \*const T>::add$|^assert:Overflow\(Sub\)$",
@@ -241,14 +251,20 @@ def c01c(ck, prog):
     ck.floor("C01-c REACH search", "sinks examined", len(sinks), 15)
 
 
+def final_builder(prog):
+    """the function that turns one base::Node into a final Node (compression, child sort, proc/catch): the function of
+    router::final that builds the procs from the node's fang list"""
+    fr = [g for g in prog.fns.values() if g.crate == "ohkami" and "router::r#final::" in g.key and not g.root and g.calls_to(r"FangsList::into_proc_with$")]
+    if len(fr) != 1:
+        raise AnchorLost("expected one function of router::final building a final Node from a base::Node (calls FangsList::into_proc_with), found %d" % len(fr))
+    return fr[0]
+
+
 def c01d(ck, prog):
     """The search tries children in slice order and commits to the first match, so `static before param` and
     `longer static before its prefix` hold only if the final children are sorted -- after every mutation of the list."""
     R = "C01-d ORDER child order"
-    fr = [g for g in prog.fns.values() if g.name == "from" and g.self_ty == "ohkami::router::r#final::Node"]
-    if len(fr) != 1:
-        raise AnchorLost("From<base::Node> for final::Node not found")
-    f = fr[0]
+    f = final_builder(prog)
     sb = [c for c in f.calls() if c.name in ("sort_by", "sort_unstable_by", "sort_by_key", "sort", "sort_by_cached_key") and "children" in decision.describe_deep(f, c.args[0], 3)]
     ok = len(sb) == 1
     ck.ob(R, "children-sorted", ok, f.loc(None), "" if ok else "the final node's children are sorted %d times" % len(sb), how="base.children.sort_by(..)", nontrivial=False)
@@ -287,4 +303,86 @@ def c01d(ck, prog):
         # a.cmp(b).reverse(): first operand from the first closure argument
         c = [x for x in cf.calls() if x.name == "cmp"]
         ok = len(c) == 1 and "arg2" in decision.describe_deep(cf, c[0].args[0], 6) and "arg3" in decision.describe_deep(cf, c[0].args[1], 6)
+    c01e(ck, prog, f)
+    c01f(ck, prog)
     ck.ob(R, "comparator:statics-reverse-lexical", ok, cf.loc(None), "" if ok else "static siblings are ordered by `%s`, expected a.cmp(b).reverse() (so that `/users` is tried before `/user`)" % ss[:60], how="(Static(a), Static(b)) => a.cmp(b).reverse()")
+
+
+def c01e(ck, prog, f):
+    """Compression lets a node take over its only child's handler. In each iteration that store must sit under a test,
+    made in the same iteration, that the node has no handler of its own -- otherwise a registered handler is overwritten
+    and its route answers 404."""
+    R = "C01-e GUARD handler kept"
+    from .lib.bound import natural_loops
+    loops = natural_loops(f)
+    n = 0
+    for bi, st, agg in decision.field_stores(f, "handler"):
+        if st["p"][0] != 1:
+            continue
+        inner = [h for h, body in loops.items() if bi in body]
+        if not inner:
+            continue
+        n += 1
+        body = loops[min(inner, key=lambda h: len(loops[h]))]
+        tested = [fa for fa in guards.facts_at(f, prog, bi)
+                  if fa.sw_bb in body and ((fa.kind == "boolcall" and fa.truth and fa.call.name == "is_none" and re.search(r"arg1\.handler\)?$", decision.describe_deep(f, fa.call.args[0], 3)))
+                                           or (fa.kind == "variant" and fa.allowed == {"None"} and re.search(r"arg1\.handler", guards.describe_origin(f, fa.steps))))]
+        ok = bool(tested)
+        ck.ob(R, "compression:handler-store", ok, f.loc(st.get("sp")),
+              "" if ok else "while compressing single-child chains the node's handler is replaced by its child's without a test in the same iteration that the node has none: "
+              "after absorbing a child that has a handler, a further absorption overwrites it (`/api/users` + `/api/users/active` => `/api/users` answers 404)",
+              how="store dominated by `base.handler.is_none()` evaluated inside the loop (bb%d)" % (tested[0].sw_bb if tested else -1))
+    ck.floor(R, "handler stores inside the compression loop", n, 1)
+
+
+def c01f(ck, prog):
+    """`a static segment matches only the identical segment`: a static pattern is compared as a byte prefix of the rest of
+    the path, so a match must also establish that the prefix ends at a segment boundary -- nothing is left, or the next
+    byte is `/`. Every path to the `Some(remaining)` answer of the Static arm of Pattern::take_through must take a branch
+    edge that establishes one of the two."""
+    R = "C01-f GUARD segment boundary"
+    from .lib import pathsens
+    f = prog.one(r"router::r#final::Pattern::take_through$")
+    sw = [b for b in sorted(f.live_blocks()) if f.blocks[b]["t"]["k"] == "switch" and (f.switch_info(b) or {}).get("kind") == "variant" and "Pattern" in ((f.switch_info(b) or {}).get("ty") or "")]
+    if not sw:
+        raise AnchorLost("no match on the pattern kind in Pattern::take_through")
+    s0 = sw[0]
+    names = prog.variant_names(f.switch_info(s0)["ty"]) or {}
+    entry = [tb for tb, lab in f.succ(s0) if lab != "otherwise" and names.get(lab) == "Static"]
+    if not entry:
+        entry = [tb for tb, lab in f.succ(s0) if lab == "otherwise"]
+    entry = entry[0]
+    somes = [bb for bb, kind, _ in paths.ret_sites(f) if kind == "Some" and f.edge_dominates(s0, entry, bb)]
+    if not somes:
+        raise AnchorLost("the Static arm of Pattern::take_through has no `Some(remaining)` answer")
+
+    def boundary(facts):
+        for fa in facts:
+            if fa.kind == "cmp":
+                for a, b, op in ((fa.lhs, fa.rhs, fa.op), (fa.rhs, fa.lhs, guards.FLIP[fa.op])):
+                    ca = guards.const_int(b[-1][1]) if b and b[-1][0] == "const" else None
+                    # next byte is `/`
+                    if op == "Eq" and ca == 47 and a and a[-1][0] == "call" and a[-1][1].name in ("get_unchecked", "index", "get", "first", "unwrap_unchecked", "unwrap"):
+                        return True
+                    # nothing left: len(bytes) == len(pattern) / len(remaining) == 0
+                    if op == "Eq" and guards.is_len_origin(f, a) and (guards.is_len_origin(f, b) or ca == 0):
+                        return True
+            if fa.kind == "boolcall" and fa.truth:
+                if fa.call.name == "is_empty":
+                    return True
+                if fa.call.name in ("starts_with", "eq") and any((c or {}).get("s") == "/" or (c or {}).get("ch") == "/" or guards.const_int(c) == 47 for c in f.const_args(fa.call)):
+                    return True
+            if fa.kind == "variant" and fa.allowed in ({"None"},) and fa.steps and fa.steps[-1][0] == "call" and fa.steps[-1][1].name in ("first", "get", "split_first"):
+                return True  # `remaining.first()` is None: nothing left
+            if fa.kind == "int" and fa.values == {47}:
+                return True
+        return False
+
+    for i, bb in enumerate(sorted(somes)):
+        p = pathsens.path_avoiding_edges(f, prog, entry, bb, boundary)
+        ok = p is None
+        ck.ob(R, "static-match:ends-at-boundary#%d" % i, ok, f.loc(f.blocks[bb]["t"].get("sp")),
+              "" if ok else "Pattern::take_through answers Some(remaining) for a static pattern that is merely a byte prefix of the rest of the path (path bb%s takes no branch establishing "
+              "`nothing left` or `next byte is /`): with routes `/users` and `/:page`, GET /users2 enters the `/users` node, finds no child for `2` and answers 404 instead of running the `/:page` handler"
+              % "->bb".join(str(x) for x in p),
+              how="every path to Some(remaining) takes an edge establishing `len == pattern.len()` or `bytes[pattern.len()] == b'/'`")
